@@ -74,8 +74,87 @@ def check_transparent_properties(rep, repo: Repo, pre: str = "") -> int:
                     ok = okstore and _only_raises(checks, mi) and not rebinds
                     if not okstore:
                         detail = f"the setter stores '{unparse(last)[:80]}' instead of `self._{name} = {params[1]}`"
+                if not ok:
+                    ok2, d2 = _setter_semantic(repo, ci, name, st)
+                    if ok2:
+                        ok = True
+                    elif d2:
+                        detail = d2
                 rep.fn(pre + "PROP-setter", st, f"{ci.name}.{name} setter stores its argument unchanged", ok, detail)
     return n
+
+
+def _truth(t, env):
+    if t[0] == "and":
+        return all(_truth(x, env) for x in t[1])
+    if t[0] == "or":
+        return any(_truth(x, env) for x in t[1])
+    if t[0] == "not":
+        return not _truth(t[1], env)
+    if t[0] == "const":
+        return bool(t[1])
+    return env[t]
+
+
+def _atoms(t, out):
+    if t[0] in ("and", "or"):
+        for x in t[1]:
+            _atoms(x, out)
+    elif t[0] == "not":
+        _atoms(t[1], out)
+    elif t[0] != "const":
+        out.add(t)
+
+
+def _setter_semantic(repo: Repo, ci, name: str, st) -> tuple:
+    """Path-wise reading of a setter written with guard clauses / early returns: on every path that does not raise,
+    exactly the argument is stored into the private twin, nothing else is stored, and no loop or call with effects
+    intervenes. Decided by enumerating the truth assignments of the (at most 8) guard atoms of the loop-free body."""
+    import itertools
+    params = st.params
+    if len(params) != 2:
+        return False, ""
+    try:
+        w = Walker(repo, st, self_class=ci.name, inline=lambda f: f.cls is None and f.module == ci.module
+                   and f.name.startswith("_") and not f.name.startswith("__"))
+    except AnalysisError:
+        return False, ""
+    if w.loops:
+        return False, "a setter may not loop"
+    twin = ("attr", ("self",), "_" + name)
+    arg = ("param", params[1])
+    stores = [e for e in w.events if e.kind == "store"]
+    def same_as_arg(e):
+        if e.value == arg:
+            return True
+        if e.value[0] == "const":  # `if x is None: self._x = None`: the constant IS the argument on that path
+            for f in facts(e.guards):
+                if f[0] == "cmp" and f[1] in ("is", "==") and {f[2], f[3]} == {arg, e.value}:
+                    return True
+        return False
+
+    if any(e.target != twin or not same_as_arg(e) or e.aug for e in stores):
+        bad = next(e for e in stores if e.target != twin or not same_as_arg(e) or e.aug)
+        return False, f"the setter stores '{bad.text()[:80]}' (only `self._{name} = {params[1]}` is allowed)"
+    if any(e.kind == "bind" and e.name == params[1] for e in w.events):
+        return False, f"the setter rebinds its argument '{params[1]}' before storing it"
+    atoms = set()
+    for e in w.events:
+        for g, _ in e.guards:
+            _atoms(g, atoms)
+    atoms = sorted(atoms, key=repr)
+    if len(atoms) > 8:
+        return False, ""
+    for bits in itertools.product((False, True), repeat=len(atoms)):
+        env = dict(zip(atoms, bits))
+        live = [e for e in w.events if all(_truth(g, env) == pol for g, pol in e.guards)]
+        if any(e.kind == "raise" for e in live):
+            continue
+        n = sum(1 for e in live if e.kind == "store")
+        if n != 1:
+            return False, (f"on the path where {', '.join(show(a)[:40] + '=' + str(b) for a, b in env.items())} the argument is stored "
+                           f"{n} times")
+    return True, ""
 
 
 def check_constants(rep, repo: Repo, pre: str = "") -> None:
